@@ -53,7 +53,7 @@ package weighted_sum
 //@ spec usum(a model.AlternativeWithCriteria, cs []model.WeightedCriterion, n int) real = n <= 0 ? 0.0 : usum(a, cs, n - 1) + model.signed(a, cs[n - 1].Criterion)
 
 //@ func WeightedSum
-//@   property C03 C01 C04
+//@   property C03 C01 C04 C07 C15 C18
 //@   ensures [single_value] fresh(result) && typeis(result.Evaluation, model.EvaluationSingleValue) && result.Alternative == alternative
 //@   ensures [C03 weighted] model.val(*result) == wsum(alternative, criteria, len(criteria))
 //@   ensures [unweighted_sum] model.val(*result) == usum(alternative, criteria, len(criteria))
@@ -62,13 +62,13 @@ package weighted_sum
 
 // the per-alternative evaluation closure of Evaluate: WeightedSum of the alternative over the parameters' weighted criteria
 //@ func (*WeightedSumPreferenceFunc).Evaluate$1
-//@   property C03 C01 C04
+//@   property C03 C01 C04 C15 C07 C18
 //@   requires params.weightedCriteria != nil
 //@   ensures [is_weighted_sum] result != nil && typeis(result.Evaluation, model.EvaluationSingleValue) && result.Alternative == *alternative
 //@             && model.val(*result) == usum(*alternative, *params.weightedCriteria, len(*params.weightedCriteria))
 
 //@ func (*WeightedSumPreferenceFunc).Evaluate
-//@   property C03 C01 C04
+//@   property C03 C01 C04 C15 C07 C18
 //@   requires [distinct] forall i int, j int :: 0 <= i && i < j && j < len(dmp.ConsideredAlternatives) ==> dmp.ConsideredAlternatives[i].Id != dmp.ConsideredAlternatives[j].Id
 //@   requires [params] typeis(dmp.MethodParameters, weightedSumParams) && dmp.MethodParameters.(weightedSumParams).weightedCriteria != nil
 //@   ensures [one_entry_each] result != nil && len(*result) == len(dmp.ConsideredAlternatives)
